@@ -377,9 +377,15 @@ func c13Conntrack(e *env) {
 	n := 2000
 	fmt.Sscan(e.args["n"], &n)
 	bad := 0
+	usedReadFrom := 0
 	var first string
 	for i := 0; i < n; i++ {
 		a0, b := net.Pipe()
+		if i%4 == 2 {
+			// a real TCP pair: the tracked connection then offers the ReadFrom fast path (splice / sendfile / generic copy),
+			// whose bytes count like any others
+			a0, b = tcpPair()
+		}
 		var a net.Conn = a0
 		if i%8 == 3 {
 			// a socket whose Close takes a while: the closers overlap inside it (a window in which a
@@ -398,13 +404,20 @@ func c13Conntrack(e *env) {
 			io.ReadFull(b, buf[:len(msg)])
 			b.Write([]byte("ack"))
 		}()
-		if i%4 == 0 {
+		switch {
+		case i%4 == 2:
+			// relayed the way tunnels and large bodies are: io.Copy picks ReadFrom when the destination offers it
+			io.Copy(wc, struct{ io.Reader }{bytes.NewReader(msg)})
+			if _, ok := wc.(io.ReaderFrom); ok {
+				usedReadFrom++
+			}
+		case i%4 == 0:
 			if rf, ok := wc.(io.ReaderFrom); ok {
 				rf.ReadFrom(bytes.NewReader(msg))
 			} else {
 				wc.Write(msg)
 			}
-		} else {
+		default:
 			wc.Write(msg)
 		}
 		ack := make([]byte, 3)
@@ -440,11 +453,33 @@ func c13Conntrack(e *env) {
 			}
 		}
 	}
-	res := map[string]any{"n": n, "ok": bad == 0}
+	res := map[string]any{"n": n, "ok": bad == 0, "via_readfrom": usedReadFrom}
 	if bad > 0 {
 		res["why"] = first
 	}
 	e.emit(res)
+}
+
+// tcpPair returns the two ends of a loopback TCP connection.
+func tcpPair() (net.Conn, net.Conn) {
+	ln, err := net.Listen("tcp", "127.0.0.1:0")
+	if err != nil {
+		fatal("listen: %v", err)
+	}
+	defer ln.Close()
+	ch := make(chan net.Conn, 1)
+	go func() {
+		c, err := ln.Accept()
+		if err != nil {
+			fatal("accept: %v", err)
+		}
+		ch <- c
+	}()
+	a, err := net.Dial("tcp", ln.Addr().String())
+	if err != nil {
+		fatal("dial: %v", err)
+	}
+	return a, <-ch
 }
 
 type slowCloseConn struct{ net.Conn }
